@@ -196,10 +196,22 @@ Proof.
     apply andb_true_iff in Hp as [_ Hp]. apply Nat.leb_le in Hp. lia.
 Qed.
 
+Lemma ranges_eqb_eq : forall p q, ranges_eqb p q = true -> p = q.
+Proof.
+  induction p as [|[a b] p IH]; destruct q as [|[c d] q]; simpl; intro H; try discriminate; [reflexivity|].
+  destruct (Nat.eqb a c) eqn:E1; [|discriminate]. destruct (Nat.eqb b d) eqn:E2; [|discriminate].
+  apply Nat.eqb_eq in E1, E2. subst. f_equal. apply IH. exact H.
+Qed.
+
+Lemma ranges_eqb_refl : forall p, ranges_eqb p p = true.
+Proof. induction p as [|[a b] p IH]; simpl; [reflexivity|]. rewrite !Nat.eqb_refl. exact IH. Qed.
+
 Lemma cset_eq_printable_sat : forall p q c, cset_eq_printable p q = true -> printable_char c = true ->
   csat p c = csat q c.
 Proof.
-  intros p q c E Hc. unfold cset_eq_printable in E. apply nats_eqb_eq in E. unfold csat.
+  intros p q c E Hc. unfold cset_eq_printable in E.
+  destruct (ranges_eqb p q) eqn:Er; [apply ranges_eqb_eq in Er; subst; reflexivity|].
+  apply nats_eqb_eq in E. unfold csat.
   unfold printable_char in Hc.
   pose proof (codes_of_spec p _ Hc) as Hp. pose proof (codes_of_spec q _ Hc) as Hq. rewrite E in Hp.
   destruct (existsb (in_range (nat_of_ascii c)) p) eqn:E1, (existsb (in_range (nat_of_ascii c)) q) eqn:E2; auto.
@@ -209,8 +221,11 @@ Qed.
 
 Lemma cset_eq_printable_sym : forall p q, cset_eq_printable p q = true -> cset_eq_printable q p = true.
 Proof.
-  intros p q E. unfold cset_eq_printable in *. apply nats_eqb_eq in E. rewrite E.
-  clear. induction (codes_of q) as [|x l IH]; simpl; [reflexivity|]. rewrite Nat.eqb_refl. exact IH.
+  intros p q E. unfold cset_eq_printable in *.
+  destruct (ranges_eqb p q) eqn:Er.
+  - apply ranges_eqb_eq in Er. subst. rewrite ranges_eqb_refl. reflexivity.
+  - apply nats_eqb_eq in E. rewrite E. destruct (ranges_eqb q p); [reflexivity|].
+    clear. induction (codes_of q) as [|x l IH]; simpl; [reflexivity|]. rewrite Nat.eqb_refl. exact IH.
 Qed.
 
 Lemma re_eqb_sym : forall (P : Type) (peq : P -> P -> bool), (forall p q, peq p q = true -> peq q p = true) ->
